@@ -458,10 +458,6 @@ def eval_C07(case):
 
 def check_C07(rng, budget):
     def gen():
-        from netgen import known_defect_recipes, random_values
-        for rec in known_defect_recipes():
-            yield dict(recipe=rec, tag=rec["tag"], kind="interior", opts=dict(delta=False, phi=False), shape="1d",
-                       vals=random_values(rng, build_from_recipe(rec), "interior"))
         for i, c in enumerate(net_cases(rng, kinds=("boundary",), per_net=1, zero=True)):
             c["flags"] = rand_flags(rng, 0.3) if i % 3 == 0 else None
             c["more_out"] = bool(i % 4 == 1)
